@@ -359,7 +359,8 @@ theorem Inv_invoke {pre : List Ev} {s s' : State} {t : Tid} {o : Oid} {op : Op}
     simp only [AL_get?_put] at hr
     split at hr
     · simp only [Option.some.injEq] at hr; subst hr; simp at hp
-    · simp [hi.done_resp o' r hr hp]
+    · obtain ⟨y, hy⟩ := hi.done_resp o' r hr hp
+      exact ⟨y, by simp [hy]⟩
   · intro k
     simp only [List.length_append, List.length_singleton]
     exact MapValAt_snoc_skip hc (by simp [writesKey, effect]) (hi.mapv k)
@@ -382,7 +383,8 @@ theorem Inv_daemon {pre : List Ev} {s s' : State} {k : Key}
     simp only [List.mem_append, List.mem_singleton, reduceCtorEq, or_false] at hm
     exact hi.resp_rec o' x hm
   · intro o' r hr hp
-    simp [hi.done_resp o' r hr hp]
+    obtain ⟨y, hy⟩ := hi.done_resp o' r hr hp
+    exact ⟨y, by simp [hy]⟩
   · intro k'
     simp only [List.length_append, List.length_singleton, lookup_remove]
     split
@@ -432,7 +434,8 @@ theorem Inv_respond {pre : List Ev} {s s' : State} {o : Oid} {x : Option Val}
     · subst_vars
       simp only [Option.some.injEq] at hr'; subst hr'
       simp
-    · simp [hi.done_resp o' r' hr' hp']
+    · obtain ⟨y, hy⟩ := hi.done_resp o' r' hr' hp'
+      exact ⟨y, by simp [hy]⟩
   · intro k
     simp only [List.length_append, List.length_singleton]
     exact MapValAt_snoc_skip hc (by simp [writesKey, effect]) (hi.mapv k)
@@ -494,7 +497,8 @@ theorem Inv_mapStep {pre : List Ev} {s s' : State} {o : Oid}
     split at hr'
     · simp only [Option.some.injEq] at hr'; subst hr'
       simp at hp'
-    · simp [hi.done_resp o' r' hr' hp']
+    · obtain ⟨y, hy⟩ := hi.done_resp o' r' hr' hp'
+      exact ⟨y, by simp [hy]⟩
   · intro k'
     simp only [List.length_append, List.length_singleton, hmap]
     cases hop : r.op with
@@ -615,11 +619,12 @@ theorem invoke_opOf {evs : List Ev} {s : State} (h : run evs = some s)
   rw [(Inv_run h3).ops_eq]
   simp [AL_get?_put]
 
-/-- The value a `get` returns is the value of its key just before its map step. -/
+/-- The value a `get` returns is the value of its key just before its map step, or `none`
+(filtered lookup). -/
 theorem get_reads {evs : List Ev} {s : State} (h : run evs = some s)
     {j : Nat} {g : Oid} {t : Tid} {k : Key} {x : Option Val}
     (hj : evs[j]? = some (.mapStep g)) (hop : opOf evs g = some (t, .get k))
-    (hres : Ev.respond g x ∈ evs) : MapValAt evs k j x := by
+    (hres : Ev.respond g x ∈ evs) : MapValAt evs k j x ∨ x = none := by
   have hi := Inv_run h
   obtain ⟨r, hr, hph, hx⟩ := hi.resp_rec g x hres
   obtain ⟨j0, hj0, hv⟩ := hi.stepped g r hr (by simp [hph])
@@ -628,8 +633,9 @@ theorem get_reads {evs : List Ev} {s : State} (h : run evs = some s)
   have h2 := hi.ops_eq g
   rw [hr, hop] at h2
   simp only [Option.map_some, Option.some.injEq, Prod.mk.injEq] at h2
-  rw [← hx]
-  exact hv k h2.2.symm
+  rcases hx with hx | hx
+  · left; rw [hx]; exact hv k h2.2.symm
+  · exact Or.inr hx
 
 theorem final_map {evs : List Ev} {s : State} (h : run evs = some s) (k : Key) :
     MapValAt evs k evs.length (lookup s.map k) := (Inv_run h).mapv k
@@ -664,13 +670,14 @@ theorem thread_sequential {evs : List Ev} {s : State} (h : run evs = some s)
   | some r =>
     simp only [hr, Option.map_some, Option.some.injEq, Prod.mk.injEq] at hop
     have hdone := threadIdle_spec hidle hr hop.1
-    obtain ⟨a, ha1, ha2⟩ := mem_take_pos (hi2.done_resp o1 r hr hdone)
-    refine ⟨a, r.ret, ?_, ha1, ha2⟩
+    obtain ⟨y, hy⟩ := hi2.done_resp o1 r hr hdone
+    obtain ⟨a, ha1, ha2⟩ := mem_take_pos hy
+    refine ⟨a, y, ?_, ha1, ha2⟩
     -- the response cannot precede the invocation
     obtain ⟨sp1, sp1', hr1, hs1, _⟩ := run_prefix_step h q1 _ h1
     obtain ⟨hnone, _, _⟩ := step_invoke_some hs1
     rcases Nat.lt_trichotomy a q1 with hlt' | heq | hgt
-    · obtain ⟨r', hr', _⟩ := (Inv_run hr1).resp_rec o1 r.ret (mem_take_of_pos hlt' ha2)
+    · obtain ⟨r', hr', _⟩ := (Inv_run hr1).resp_rec o1 y (mem_take_of_pos hlt' ha2)
       simp [hnone] at hr'
     · subst heq; simp [h1] at ha2
     · exact hgt
@@ -731,10 +738,11 @@ theorem read_from {evs : List Ev} {s : State} (h : run evs = some s)
     (hres : Ev.respond g (some v) ∈ evs) :
     ∃ i w tw, i < j ∧ evs[i]? = some (.mapStep w) ∧ opOf evs w = some (tw, .ins k v) ∧
       NoWriteIn evs k (i + 1) j := by
-  rcases get_reads h hj hop hres with ⟨h1, _⟩ | ⟨i, e, h1, h2, h3, h4⟩
+  rcases get_reads h hj hop hres with (⟨h1, _⟩ | ⟨i, e, h1, h2, h3, h4⟩) | h1
   · simp at h1
   · obtain ⟨w, tw, rfl, hw⟩ := effect_some_val h3
     exact ⟨i, w, tw, h1, h2, hw, h4⟩
+  · simp at h1
 
 theorem writesKey_mapStep_of_op {evs : List Ev} {u : Oid} {tu : Tid} {opu : Op} {k : Key}
     (hu : opOf evs u = some (tu, opu)) (hk : (∃ v, opu = .ins k v) ∨ opu = .del k) :
@@ -887,8 +895,8 @@ theorem orderOk_iff (L : List HOp) :
   | nil => simp [orderOk]
   | cons a l ih => simp [orderOk, ih, List.pairwise_cons]
 
-/-- A linearized operation that leaves the cell unchanged: a `get` returning a value. -/
-def IsHit (a : HOp) : Prop := ∃ k v, a.op = .get k ∧ a.result = some v
+/-- A linearized operation that leaves the cell unchanged: a `get`. -/
+def IsHit (a : HOp) : Prop := ∃ k, a.op = .get k
 
 theorem applyOp_cases {cur c : Option Val} {a : HOp} (h : applyOp cur a = some c) :
     (∃ k v, a.op = .ins k v ∧ c = some v) ∨ (c = none ∧ ¬ IsHit a) ∨ (IsHit a ∧ c = cur) := by
@@ -900,15 +908,14 @@ theorem applyOp_cases {cur c : Option Val} {a : HOp} (h : applyOp cur a = some c
   · rename_i k hop
     simp only [Option.some.injEq] at h
     refine Or.inr (Or.inl ⟨h.symm, ?_⟩)
-    rintro ⟨k', v', h1, _⟩; rw [hop] at h1; simp at h1
+    rintro ⟨k', h1⟩; rw [hop] at h1; simp at h1
   · rename_i k hop hres
     simp only [Option.some.injEq] at h
-    refine Or.inr (Or.inl ⟨h.symm, ?_⟩)
-    rintro ⟨k', v', _, h2⟩; rw [hres] at h2; simp at h2
+    exact Or.inr (Or.inr ⟨⟨k, hop⟩, h.symm⟩)
   · rename_i k v hop hres
     split at h
     · simp only [Option.some.injEq] at h
-      exact Or.inr (Or.inr ⟨⟨k, v, hop, hres⟩, h.symm⟩)
+      exact Or.inr (Or.inr ⟨⟨k, hop⟩, h.symm⟩)
     · simp at h
 
 theorem applyOp_hit {cur c : Option Val} {g : HOp} {k : Key} {v : Val}
@@ -921,8 +928,8 @@ theorem applyOp_hit {cur c : Option Val} {g : HOp} {k : Key} {v : Val}
   · assumption
   · simp at h
 
-/-- In a successful replay, a hit `g` returning `v` is preceded by an `ins _ v` with only
-hits in between (or the initial cell already holds `v`, with only hits before `g`). -/
+/-- In a successful replay, a get `g` returning `v` is preceded by an `ins _ v` with only
+gets in between (or the initial cell already holds `v`, with only hits before `g`). -/
 theorem replay_hit {L : List HOp} {cur : Option Val} (hrep : replay cur L = true)
     {g : HOp} {k : Key} {v : Val} (hg : g ∈ L) (hop : g.op = .get k)
     (hres : g.result = some v) :
@@ -960,7 +967,7 @@ theorem replay_hit {L : List HOp} {cur : Option Val} (hrep : replay cur L = true
           exact ⟨a :: l1, w, l2, l3, k', by simp [hl], hw, hhits⟩
 
 theorem isHit_not_write {a : HOp} (h : IsHit a) : a.op.isWrite = false := by
-  obtain ⟨k, v, h1, _⟩ := h
+  obtain ⟨k, h1⟩ := h
   rw [h1]; rfl
 
 /-- Soundness of the certificate checker, per key. -/
@@ -1634,16 +1641,18 @@ theorem MapValAt_unique {evs : List Ev} {k : Key} {j : Nat} {x y : Option Val}
       · have := h4' i (by omega) h1 e h2
         rw [wk h3] at this; simp at this
 
-/-- The value a `get` responds with is the map's value in the state before its map step. -/
+/-- The value a `get` responds with is the map's value in the state before its map step,
+or `none`. -/
 theorem get_result_eq {pre suf : List Ev} {g : Oid} {sf s0 : State}
     (h : run (pre ++ .mapStep g :: suf) = some sf) (h0 : run pre = some s0)
     {t : Tid} {k : Key} {x : Option Val}
     (hop : opOf (pre ++ .mapStep g :: suf) g = some (t, .get k))
-    (hres : Ev.respond g x ∈ pre ++ .mapStep g :: suf) : x = lookup s0.map k := by
+    (hres : Ev.respond g x ∈ pre ++ .mapStep g :: suf) : x = lookup s0.map k ∨ x = none := by
   have hi0 := Inv_run h0
   have h1 := MapValAt_append (.mapStep g :: suf) hi0.closed (Nat.le_refl _) (hi0.mapv k)
-  have h2 := get_reads h (j := pre.length) (by simp) hop hres
-  exact MapValAt_unique h2 h1
+  rcases get_reads h (j := pre.length) (by simp) hop hres with h2 | h2
+  · exact Or.inl (MapValAt_unique h2 h1)
+  · exact Or.inr h2
 
 /-- The witness restricted to the map steps of a prefix (records taken from the full trace). -/
 def linPre (evs pre : List Ev) (k : Key) : List HOp :=
@@ -1691,7 +1700,7 @@ theorem applyOp_del {c : Option Val} {a : HOp} {k : Key} (h : a.op = .del k) :
   unfold applyOp; rw [h]
 
 theorem applyOp_get_none {c : Option Val} {a : HOp} {k : Key} (h : a.op = .get k)
-    (hr : a.result = none) : applyOp c a = some none := by
+    (hr : a.result = none) : applyOp c a = some c := by
   unfold applyOp; rw [h, hr]
 
 theorem applyOp_get_some {c : Option Val} {a : HOp} {k : Key} {v : Val} (h : a.op = .get k)
@@ -1760,11 +1769,13 @@ theorem replay_linPre {evs : List Ev} {sf : State} (h : run evs = some sf)
           have hx := get_result_eq h h0 hopo hares
           simp only
           cases hres : a.result with
-          | none =>
-            refine ⟨none, applyOp_get_none haop hres, Or.inl ?_⟩
-            rw [← hx, hres]
+          | none => exact ⟨c, applyOp_get_none haop hres, hc2⟩
           | some v =>
-            have hl : lookup s0.map k' = some v := by rw [← hx, hres]
+            have hl : lookup s0.map k' = some v := by
+              rw [hres] at hx
+              rcases hx with hx | hx
+              · exact hx.symm
+              · simp at hx
             have hcv : c = some v := by
               rcases hc2 with h' | h'
               · rw [hl] at h'; simp at h'
